@@ -18,12 +18,18 @@ import (
 	"sort"
 	"strconv"
 	"strings"
+	"sync"
 	"time"
 
 	"verif/sim/engine"
 )
 
-const verifDir = "/verif"
+var verifDir = func() string {
+	if d := os.Getenv("VERIF_DIR"); d != "" {
+		return d
+	}
+	return "/verif"
+}()
 
 func main() {
 	if len(os.Args) < 2 {
@@ -484,60 +490,109 @@ func cmdCheck(args []string) int {
 	os.MkdirAll(tmp, 0o755)
 	defer os.RemoveAll(tmp)
 	self, _ := os.Executable()
-	type proc struct {
-		cmd *exec.Cmd
-		out string
+	// Each worker slot handles run indices slot, slot+n, slot+2n, ... For C10 a slot's
+	// indices are handed out in chunks to successive fresh OS processes, so that many
+	// runs start in a cold process (state that lives in package-level variables of the
+	// code under test is process history, which C10 is about).
+	chunk := uint64(0)
+	if *prop == "C10" {
+		chunk = 24
 	}
-	var procs []proc
-	for i := 0; i < n; i++ {
-		out := filepath.Join(tmp, fmt.Sprintf("w%d.json", i))
-		cmd := exec.Command(self, "worker", "-prop", *prop, "-tier", *tier, "-vseed", fmt.Sprint(vseed), "-start", fmt.Sprint(i), "-stride", fmt.Sprint(n),
-			"-max", fmt.Sprint(maxRuns), "-budget", fmt.Sprint(budget), "-out", out, "-id", fmt.Sprint(i))
-		cmd.Stderr = os.Stderr
-		cmd.Stdout = os.Stdout
-		cmd.Env = append(os.Environ(), "GOMAXPROCS=2")
-		if err := cmd.Start(); err != nil {
-			fmt.Fprintln(os.Stderr, "start worker:", err)
-			return 2
-		}
-		procs = append(procs, proc{cmd, out})
-	}
-	// watchdog: a worker that overruns the budget by far is killed
-	done := make(chan int, len(procs))
-	for i := range procs {
-		go func(i int) { procs[i].cmd.Wait(); done <- i }(i)
-	}
-	hardLimit := time.After(time.Duration((budget*1.5 + 240) * float64(time.Second)))
-	finished := 0
+	deadline := t0.Add(time.Duration(budget * float64(time.Second)))
+	hard := t0.Add(time.Duration((budget*1.5 + 240) * float64(time.Second)))
+	var mu sync.Mutex
+	var outs []string
+	var crashed []string
 	watchdog := false
-	for finished < len(procs) {
-		select {
-		case <-done:
-			finished++
-		case <-hardLimit:
-			watchdog = true
-			for _, p := range procs {
-				if p.cmd.ProcessState == nil {
-					p.cmd.Process.Kill()
+	var wg sync.WaitGroup
+	for i := 0; i < n; i++ {
+		wg.Add(1)
+		go func(slot int) {
+			defer wg.Done()
+			for part := uint64(0); ; part++ {
+				remaining := time.Until(deadline).Seconds()
+				if part > 0 && remaining < 2 {
+					return
+				}
+				start := uint64(slot)
+				max := maxRuns
+				if chunk > 0 {
+					start = uint64(slot) + part*chunk*uint64(n)
+					if m := start + chunk*uint64(n); m < max {
+						max = m
+					}
+					if start >= maxRuns {
+						return
+					}
+				}
+				out := filepath.Join(tmp, fmt.Sprintf("w%d.%d.json", slot, part))
+				cmd := exec.Command(self, "worker", "-prop", *prop, "-tier", *tier, "-vseed", fmt.Sprint(vseed), "-start", fmt.Sprint(start), "-stride", fmt.Sprint(n),
+					"-max", fmt.Sprint(max), "-budget", fmt.Sprint(remaining), "-out", out, "-id", fmt.Sprint(slot))
+				cmd.Stderr = os.Stderr
+				cmd.Stdout = os.Stdout
+				cmd.Env = append(os.Environ(), "GOMAXPROCS=2")
+				if err := cmd.Start(); err != nil {
+					mu.Lock()
+					crashed = append(crashed, fmt.Sprintf("start worker: %v", err))
+					mu.Unlock()
+					return
+				}
+				done := make(chan struct{})
+				go func() { cmd.Wait(); close(done) }()
+				select {
+				case <-done:
+				case <-time.After(time.Until(hard)):
+					cmd.Process.Kill()
+					<-done
+					mu.Lock()
+					watchdog = true
+					mu.Unlock()
+					return
+				}
+				if _, err := os.Stat(out); err != nil {
+					mu.Lock()
+					crashed = append(crashed, fmt.Sprintf("worker result missing (%s): worker crashed (exit %d)", out, cmd.ProcessState.ExitCode()))
+					mu.Unlock()
+					return
+				}
+				mu.Lock()
+				outs = append(outs, out)
+				mu.Unlock()
+				if chunk == 0 {
+					return
+				}
+				// stop handing out chunks once a worker reported a violation or harness failure
+				if bz, err := os.ReadFile(out); err == nil {
+					var r WorkerResult
+					if json.Unmarshal(bz, &r) == nil && (len(r.Violations) > 0 || len(r.Harness) > 0) {
+						return
+					}
 				}
 			}
-			hardLimit = nil
-		}
+		}(i)
 	}
+	wg.Wait()
 	if watchdog {
 		fmt.Fprintln(os.Stderr, "watchdog: worker(s) exceeded the hard time limit")
 		return 2
 	}
+	for _, c := range crashed {
+		fmt.Fprintln(os.Stderr, c)
+	}
+	if len(crashed) > 0 {
+		return 2
+	}
+	sort.Strings(outs)
 	// merge
 	tot := &WorkerResult{MsgOutcomes: map[string]int{}, Faults: map[string]int{}, FaultsConfigured: map[string]int{}, Probes: map[string]int{}, Known: map[string]int{}, KnownSample: map[string]string{}}
 	states := map[uint64]struct{}{}
 	trans := map[uint64]struct{}{}
 	shapes := map[uint64]struct{}{}
 	nts := map[uint64]struct{}{}
-	for _, p := range procs {
-		bz, err := os.ReadFile(p.out)
+	for _, outPath := range outs {
+		bz, err := os.ReadFile(outPath)
 		if err != nil {
-			fmt.Fprintf(os.Stderr, "worker result missing (%s): worker crashed (exit %d)\n", p.out, p.cmd.ProcessState.ExitCode())
+			fmt.Fprintf(os.Stderr, "worker result unreadable (%s)\n", outPath)
 			return 2
 		}
 		var r WorkerResult
